@@ -86,6 +86,14 @@ Theorem C12_remove_invalid_output_wellformed :
 Proof. exact remove_invalid_output_wellformed_proof. Qed.
 Print Assumptions C12_remove_invalid_output_wellformed.
 
+(* commoncrawl_dedupe strips the bytes util/spaces.cc calls spaces (regenerated table) from both ends of a line:
+   every such byte is ASCII, so stripping never cuts into a multi-byte sequence -- a well-formed line stays well-formed
+   (a table entry >= 0x80, e.g. 0xA0, breaks this proof) *)
+Theorem C12_strip_spaces_keeps_wellformed :
+  forall l, WellFormed l -> WellFormed (strip_spaces l).
+Proof. exact strip_spaces_wellformed_proof. Qed.
+Print Assumptions C12_strip_spaces_keeps_wellformed.
+
 (* the specification itself: Table 3-7 strings are exactly the UTF-8 encodings (Table 3-6) of sequences of
    Unicode scalar values -- the row-by-row table and the arithmetic definition agree *)
 Theorem C12_wellformed_iff_scalar_sequence :
@@ -117,3 +125,8 @@ Example C12_nonvacuous_tool :
   remove_invalid_utf8 [0x61; 13; 10; 0x62; 0xFF; 10; 0xC3; 0xA9] = [0x61; 13; 10; 0xC3; 0xA9; 10] /\
   iterate_utf8 [0x41; 0xC3; 0xA9; 0xFF] = IterBad [(0x41, [0x41]); (0xE9, [0xC3; 0xA9])].
 Proof. vm_compute. split; reflexivity. Qed.
+
+Example C12_nonvacuous_strip :
+  strip_spaces [32; 9; 99; 105; 116; 116; 0xC3; 0xA0; 32; 13] = [99; 105; 116; 116; 0xC3; 0xA0] /\
+  is_utf8 [99; 105; 116; 116; 0xC3; 0xA0] = Some true /\ is_space_byte 0xA0 = false /\ is_space_byte 0x85 = false.
+Proof. vm_compute. repeat split. Qed.
